@@ -15,6 +15,14 @@ ProjPc == CASE pc \in {"hdr", "hflush", "read0"} -> "read0"
             [] pc = "read" -> "read" [] pc = "seal" -> "seal"
             [] pc \in {"write", "flush"} -> "write"
             [] OTHER -> IF res = "ok" THEN "end" ELSE "failed"
-ProjIndInv == EncIndInv(CS, L, ProjPc, pos, (IF pc = "flush" THEN Covered - prevLen ELSE Covered),
-                        prevLen, numRead, done, ctr, Cardinality(sealed), MaxNonce)
+\* a record counts as covered once it is written AND flushed (WriteRec of EncLoopInd = body complete + flush)
+FlushFailed == pc = "end" /\ res = "err_write" /\ item.k = "none" /\ Len(sink) > 0 /\ sink[Len(sink)].k = "rbody"
+ProjCovered == IF pc = "flush" \/ FlushFailed THEN Covered - prevLen ELSE Covered
+ProjIndInv == EncIndInv(CS, L, ProjPc, pos, ProjCovered, prevLen, numRead, done, ctr, Cardinality(sealed), MaxNonce)
+\* ... and every step of EncLoop (conforming source, baseline variant) is a step of EncLoopInd or leaves its
+\* variables unchanged
+Ind == INSTANCE EncLoopInd WITH pc <- ProjPc, covered <- ProjCovered, nsealed <- Cardinality(sealed), lastNonce <- MaxNonce
+MCLens == 0..CS          \* cfg: Lens <- [EncLoopInd] MCLens
+ProjEncInit == (pc \in {"hdr", "read0"} /\ sink = <<>> /\ acc = 0 /\ pos = 0 /\ rs = <<>>) => Ind!Init
+RefinesEncLoopInd == [][Ind!Next \/ UNCHANGED Ind!vars]_vars
 =============================================================================
